@@ -114,7 +114,8 @@ Proof.
     intro H; inversion H; subst; clear H; unfold Inv, set_qc, set_cur, set_take in *; cbn [cur out qc take] in *;
     try (apply cur_ok_update; assumption);
     try (apply cur_ok_step; assumption);
-    try (apply cur_ok_fresh; apply chain_step; eapply chain_of_cur; eassumption).
+    try (apply cur_ok_fresh; apply chain_step; eapply chain_of_cur; eassumption);
+    try (apply cur_ok_fresh; apply chain_step; eapply chain_out_of_cur; eassumption).
 Qed.
 
 
@@ -128,33 +129,73 @@ Lemma LFb_LF s : LFb s = true -> LF s.
 Proof.
   unfold LFb, LF. intros H Hq Ht. rewrite Hq, Ht in H. cbn in H. destruct (tstart (cur s)); [discriminate | reflexivity].
 Qed.
-(* every state the tokenizer passes through is leftover-free (decidable: it is a function of the input) *)
-Fixpoint run_LFb (cl : N -> cls) (s : tstate) (i : nat) (l : list N) : bool :=
-  LFb s && match l with
-           | [] => true
-           | c :: r => match step cl s i c with inl s' => run_LFb cl s' (S i) r | inr _ => true end
-           end.
-Definition no_empty_top_level_quote (cl : N -> cls) (l : list N) : bool := run_LFb cl init 0 l.
+(* every state the tokenizer passes through is leftover-free: an invariant of the machine (an empty quoted region at top level now resets the
+   current token; before that repair of /repo this was a side condition on the input) *)
+Lemma truthy_update t c i k : truthy (update t c i k) = true.
+Proof. unfold truthy, update. cbn [ttext]. destruct (ttext t); reflexivity. Qed.
+Lemma LFb_truthy q tk t o : truthy t = true -> LFb {| qc := q; take := tk; cur := t; out := o |} = true.
+Proof. intro H. unfold LFb. cbn [qc cur]. destruct q; [rewrite H|]; reflexivity. Qed.
+Lemma LFb_fresh q tk o : LFb {| qc := q; take := tk; cur := fresh; out := o |} = true.
+Proof. unfold LFb. cbn [qc cur]. destruct q; reflexivity. Qed.
+Lemma LFb_quoted c q tk t o : LFb {| qc := c :: q; take := tk; cur := t; out := o |} = true.
+Proof. reflexivity. Qed.
+Lemma LFb_yield s : qc s = [] -> LFb s = true -> LFb (yield_cur s) = true.
+Proof. intros Hq H. unfold yield_cur. destruct (truthy (cur s)); [unfold LFb; cbn [qc cur]; rewrite Hq; reflexivity | exact H]. Qed.
+Lemma LFb_top_falsy s o : qc s = [] -> take s = 0%nat -> LFb s = true -> truthy (cur s) = false -> LFb {| qc := []; take := 0; cur := cur s; out := o |} = true.
+Proof. intros Hq Ht H Hf. unfold LFb in *. rewrite Hq, Hf in H. cbn [qc cur] in *. rewrite Hf. exact H. Qed.
 
-Lemma run_inv cl l : forall s i s', run_LFb cl s i l = true -> Inv s i -> run cl s i l = inl s' -> Inv s' (i + length l)%nat.
+Lemma step_LFb cl s i c s' : LFb s = true -> step cl s i c = inl s' -> LFb s' = true.
+Proof.
+  intros HL. unfold step.
+  destruct (take s) as [|n] eqn:Et.
+  2:{ intro H; inversion H; subst. unfold set_take, set_cur. apply LFb_truthy, truthy_update. }
+  destruct (qc s) as [|q qrest] eqn:Eq.
+  - pose proof (LFb_yield s Eq HL) as HY.
+    assert (Yq : qc (yield_cur s) = []) by (unfold yield_cur; destruct (truthy (cur s)); cbn [qc]; exact Eq).
+    assert (Yt : take (yield_cur s) = 0%nat) by (unfold yield_cur; destruct (truthy (cur s)); cbn [take]; exact Et).
+    repeat match goal with
+    | |- (if ?b then _ else _) = _ -> _ => destruct b eqn:?
+    | |- (match tkind ?t with _ => _ end) = _ -> _ => destruct (tkind t) as [[]|] eqn:?
+    | |- (let _ := _ in _) = _ -> _ => cbv zeta
+    end;
+    intro H; inversion H; subst; clear H; unfold set_qc, set_cur, emit in *; cbn [cur out qc take] in *;
+    try (apply LFb_quoted);
+    try (apply LFb_truthy, truthy_update);
+    try exact HL; try exact HY.
+    all: try (unfold LFb in *; cbn [qc cur] in *; rewrite ?Eq, ?Yq in *; assumption).
+  - repeat match goal with
+    | |- (if ?b then _ else _) = _ -> _ => destruct b eqn:?
+    | |- (match ?l with [] => _ | _ :: _ => _ end) = _ -> _ => destruct l eqn:?
+    | |- (let _ := _ in _) = _ -> _ => cbv zeta
+    end;
+    intro H; inversion H; subst; clear H; unfold set_qc, set_cur, set_take in *; cbn [cur out qc take] in *;
+    try (apply LFb_truthy, truthy_update);
+    try (apply LFb_fresh);
+    try (apply LFb_quoted).
+Qed.
+Lemma run_LFb_all cl l : forall s i s', LFb s = true -> run cl s i l = inl s' -> LFb s' = true.
+Proof.
+  induction l as [|c r IH]; intros s i s' HL Hr; cbn [run] in Hr; [inversion Hr; subst; exact HL|].
+  destruct (step cl s i c) as [s1|e] eqn:Es; [|discriminate]. apply (IH s1 (S i) s' (step_LFb cl s i c s1 HL Es) Hr).
+Qed.
+
+Lemma run_inv cl l : forall s i s', LFb s = true -> Inv s i -> run cl s i l = inl s' -> Inv s' (i + length l)%nat.
 Proof.
   induction l as [|c r IH]; intros s i s' HL HI Hr; cbn [run length] in *.
   - inversion Hr; subst. rewrite Nat.add_0_r. exact HI.
-  - cbn [run_LFb] in HL. apply andb_true_iff in HL as [HL1 HL2].
-    destruct (step cl s i c) as [s1|e] eqn:Es; [|discriminate].
+  - destruct (step cl s i c) as [s1|e] eqn:Es; [|discriminate].
     replace (i + S (length r))%nat with (S i + length r)%nat by lia.
-    eapply IH; eauto. eapply step_inv; eauto. apply LFb_LF; auto.
+    apply (IH s1 (S i) s' (step_LFb cl s i c s1 HL Es)); [|exact Hr]. eapply step_inv; eauto. apply LFb_LF; exact HL.
 Qed.
 
 (* the token list in source order: every span is well-formed, inside the string, and strictly after the previous one *)
 Definition spans_ordered (ts : list token) (n : nat) : Prop := chain (rev ts) n.
 
-Theorem tokenize_spans_ordered cl l ts :
-  no_empty_top_level_quote cl l = true -> tokenize cl l = inl ts -> spans_ordered ts (length l).
+Theorem tokenize_spans_ordered cl l ts : tokenize cl l = inl ts -> spans_ordered ts (length l).
 Proof.
-  unfold no_empty_top_level_quote, tokenize, spans_ordered. intros HL.
+  unfold tokenize, spans_ordered.
   destruct (run cl init 0 l) as [s|e] eqn:Er; [|discriminate].
-  pose proof (run_inv cl l init 0 s HL inv_init Er) as HI. cbn [Nat.add] in HI.
+  pose proof (run_inv cl l init 0 s eq_refl inv_init Er) as HI. cbn [Nat.add] in HI.
   destruct (qc s); [|discriminate]. intro H; inversion H; subst; clear H. rewrite rev_involutive.
   destruct (truthy (cur s)) eqn:Et.
   - eapply chain_of_cur; eauto.
